@@ -374,8 +374,14 @@ class _MockMOFWBEMConnection(ResolverMixin, BaseRepositoryConnection):
         self.conn.SetQualifier(qual, namespace=ns)
 
     def DeleteQualifier(self, *args, **kwargs):
-        """
-        Not implemented because not called from the MOF compiler
-        """
+        """Delete a qualifier type in the connected client. This method is
+        used by the MOF compiler only in the course of handling
+        CIM_ERR_NOT_SUPPORTED after trying to execute SetQualifier.
 
-        assert False, 'DeleteQualifier not implemented!'
+        For a description of the parameters, see
+        :meth:`pywbem.WBEMConnection.DeleteQualifier`.
+        """
+        qualname = args[0] if args else kwargs['QualifierName']
+        ns = kwargs.get('namespace', self.default_namespace)
+
+        self.conn.DeleteQualifier(qualname, namespace=ns)
